@@ -33,9 +33,21 @@ func (c *checker) pairwiseLogMatching(seq uint64, where string) {
 				if ea.T != eb.T || ea.P != eb.P || ea.Ty != eb.Ty {
 					sig := "logs-differ-below-common-entry"
 					if k <= a.maxSnapIndex() || k <= b.maxSnapIndex() {
-						// the differing entry sits under a snapshot of one of the two: a stale
-						// entry that survived a snapshot install
+						// the differing entry sits under a snapshot of one of the two
 						sig = "stale-entry-under-snapshot-differs"
+					}
+					// known finding S3a: the side that contradicts the committed history keeps the
+					// entry below a snapshot it *installed* from a leader (a gap-tolerant store is not
+					// emptied when the log does not continue the snapshot)
+					if g := c.G[k]; g != nil {
+						for _, side := range []struct {
+							n string
+							e sim.Ent
+						}{{names[i], ea}, {names[j], eb}} {
+							if (side.e.T != g.term || side.e.P != g.payload) && k <= c.srv[side.n].installedMax {
+								sig = "stale-entry-under-installed-snapshot"
+							}
+						}
 					}
 					c.violate("C04", sig, seq, "%s: %s and %s both hold (index %d, term %d) but differ at index %d: (term %d, %q) vs (term %d, %q)", where, names[i], names[j], top, a.logs[top].T, k, ea.T, ea.P, eb.T, eb.P)
 					break
@@ -186,6 +198,18 @@ func (c *checker) classifyNoLeader(up []sim.Ev) (string, string) {
 	reasons := map[string]int{}
 	for _, cnd := range vs {
 		if !cnd.cfg.IsVoter(cnd.name) {
+			continue
+		}
+		// a server that was removed from the cluster and never learnt it (another server with a
+		// strictly more up-to-date log has a configuration without it) keeps campaigning in vain,
+		// legitimately: the refusals it meets do not explain why the cluster has no leader
+		removed := false
+		for _, v := range vs {
+			if v.name != cnd.name && v.hasCfg && !v.cfg.Has(cnd.name) && !cmpUpToDate(cnd.lt, cnd.li, v.lt, v.li) {
+				removed = true
+			}
+		}
+		if removed {
 			continue
 		}
 		anyCampaigner = true
